@@ -496,7 +496,7 @@ func genPlan(r *vgen.Rand, frames [][][]byte, mode int) []dop {
 			// duplicate now or a little later
 			plan = append(plan, d)
 		}
-		if mode >= 5 && r.Chance(4, 100) {
+		if mode >= 5 && r.Chance(10, 100) {
 			plan = append(plan, dop{kind: 2})
 			if r.Bool() {
 				plan = append(plan, dop{kind: 2})
@@ -548,7 +548,8 @@ func main() {
 		"CE2E: 1-3 real encoders with distinct streams, frames delivered to one real worker in order / " +
 		"with deletion, duplication, local reordering, shuffles, cleanup ticks, corrupted copies; every sixth case " +
 		"is a twin-stream case (same session, frame size and packet lengths, 20-bit stream ids that collide in " +
-		"the low 16/15/12/8 bits, frames interleaved position by position with losses); " +
+		"the low 16/15/12/8 bits, frames interleaved position by position with losses), every sixth one delivers " +
+		"all frames in order with worker.cleanup ticks between them (never two in a row; must lose nothing); " +
 		"non-trivial = the worker reassembled at least one packet from two or more frames. " +
 		"CRx: mutated genuine frames and random frames; non-trivial = the worker emitted something."
 	r := vgen.NewRand(run.Seed)
@@ -657,6 +658,9 @@ func main() {
 		if twins {
 			nsnd = vgen.Pick(cr, 2, 2, 2, 3)
 		}
+		if !forceKnown && !forceEdge && i%6 == 4 {
+			nsnd = vgen.Pick(cr, 1, 1, 1, 2)
+		}
 		var ss []*senderRun
 		hung := false
 		base := uint32(cr.U64())
@@ -710,6 +714,23 @@ func main() {
 			frames = append(frames, s.frames())
 		}
 		plan := genPlan(cr, frames, mode)
+		// in-order delivery with cleanup ticks, never two in a row: a tick before each frame with
+		// probability pTick (100 = a tick between all frames), possibly one at the end
+		ticked := !forceKnown && !forceEdge && !twins && i%6 == 4
+		if ticked {
+			mode = 8
+			pTick := vgen.Pick(cr, 100, 100, 60, 30)
+			plan = nil
+			for _, d := range genPlan(cr, frames, 0) {
+				if cr.Chance(pTick, 100) {
+					plan = append(plan, dop{kind: 2})
+				}
+				plan = append(plan, d)
+			}
+			if cr.Bool() {
+				plan = append(plan, dop{kind: 2})
+			}
+		}
 		if twins {
 			mode = 7
 			plan = nil
